@@ -23,6 +23,7 @@ from __future__ import annotations
 import asyncio
 import socket
 import struct
+import time
 
 from . import common as C
 
@@ -75,14 +76,21 @@ def rr(owner, rtype, rclass, ttl, rdata):
 
 
 def d8_packet(k, answerable=TA, idq=7):
-    """legacy-unicast shaped query: first question has a label of k x 0xFF, second is answerable"""
-    return hdr(idq, 0, 2) + q([b"\xff" * k, b"local"], 12) + q(labels_of(answerable), 12)
+    """legacy-unicast shaped query: first question has a label of k x 0xFF (or, for a bytes `k`, that label), second is answerable"""
+    lab = k if isinstance(k, bytes) else b"\xff" * k
+    return hdr(idq, 0, 2) + q([lab, b"local"], 12) + q(labels_of(answerable), 12)
+
+
+# labels around the 63-byte limit of the re-encoded text: 63 (fits), 64 (one too many), and plain 63 / 62 byte ASCII
+EDGE_LABELS = [b"\xff" * 21, b"\xff" * 21 + b"a", b"a" + b"\xff" * 21, b"\xff" * 20 + b"abc", b"\xff" * 20 + b"abcd", b"a" * 63, b"a" * 62,
+               "é".encode() * 31 + b"a", ("日" * 21).encode(), b"\xff" * 22]
 
 
 def d8b_packet(k, typ=TB):
     """response: PTR typ -> <k x 0xFF>.typ (alias label not valid UTF-8)"""
     owner = wname(labels_of(typ))
-    rdata = bytes([k]) + b"\xff" * k + b"\xc0\x0c"
+    lab = k if isinstance(k, bytes) else b"\xff" * k
+    rdata = bytes([len(lab)]) + lab + b"\xc0\x0c"
     return hdr(0, 0x8400, 0, 1) + rr(owner, 12, 1, 4500, rdata)
 
 
@@ -214,9 +222,9 @@ def gen_item(rng, live, names, last):
     elif k == "lookup":
         d = lookup_resp(rng)
     elif k == "d8":
-        d = d8_packet(rng.choice([21, 22, 40, 63]), rng.choice(names), rng.randrange(65536))
+        d = d8_packet(rng.choice([21, 22, 40, 63] + EDGE_LABELS), rng.choice(names), rng.randrange(65536))
     elif k == "d8b":
-        d = d8b_packet(rng.choice([21, 22, 30, 63]), rng.choice([TB, TB, TA]))
+        d = d8b_packet(rng.choice([21, 22, 30, 63] + EDGE_LABELS), rng.choice([TB, TB, TA]))
     elif k == "oversize":
         base = query_packet(rng, names)
         d = base + bytes(rng.choice([MAXLEN, MAXLEN + 1, MAXLEN + 1, 9000, 20000]) - len(base))
@@ -566,6 +574,16 @@ def impl_tags(obs):
     return out
 
 
+def cut_after_raise(it, mt):
+    """after the first block that raised (in either), only the exception class of that block is compared: the model
+    does not describe the half-updated listener an exception leaves behind"""
+    cut = next((i for i in range(min(len(it), len(mt))) if it[i].split("/")[1] != "-" or mt[i].split("/")[1] != "-"), None)
+    if cut is not None:
+        it = it[:cut] + ["*/" + it[cut].split("/")[1]]
+        mt = mt[:cut] + ["*/" + mt[cut].split("/")[1]]
+    return it, mt
+
+
 def encodable_impl(data):
     """does the library's encoder accept every name its decoder hands out for this datagram? (None: no object)"""
     from zeroconf import DNSIncoming, DNSOutgoing
@@ -666,14 +684,7 @@ def flush_model(res, ctx, acc, seen):
         del acc[:]
         return
     for (case, obs), ml in zip(acc, out[:len(acc)]):
-        it = impl_tags(obs)
-        mt = ml.split(" ") if ml else []
-        # after the first block that raised (in either), only the exception class of that block is compared: the model
-        # does not describe the half-updated listener an exception leaves behind
-        cut = next((i for i in range(min(len(it), len(mt))) if it[i].split("/")[1] != "-" or mt[i].split("/")[1] != "-"), None)
-        if cut is not None:
-            it = it[:cut] + ["*/" + it[cut].split("/")[1]]
-            mt = mt[:cut] + ["*/" + mt[cut].split("/")[1]]
+        it, mt = cut_after_raise(impl_tags(obs), ml.split(" ") if ml else [])
         if it != mt:
             k = next((i for i in range(min(len(it), len(mt))) if it[i] != mt[i]), min(len(it), len(mt)))
             res.disagree("c15run", {"case": fixed_case(case, obs["items"]), "block": k, "blockinfo": obs["blocks"][k] if k < len(obs["blocks"]) else None},
@@ -700,9 +711,11 @@ def corpus_cases():
 def run(ctx):
     res = C.Result("C15")
     seed, tier = ctx["seed"], ctx["tier"]
-    n = C.Budget(tier, 1000, 30000).n
+    n = C.Budget(tier, 1000, 20000).n
     if ctx["widened"]:
-        n *= 3
+        n *= 2
+    cap = 40.0 if tier != "thorough" else 540.0   # wall-clock guard for a loaded machine; the corpus always runs
+    t0 = time.time()
     res.rule = ("simulated instance (1-2 services, listener browser + handler browser, optional lookup) fed 5-60 datagrams at gaps 0 ms..11 s from "
                 "{5353, 40000, 53, 1, 65535} x {foreign, peer, own address}: C02 generators (random, wire-built, encoder-built, mutated, pointer graphs, chains), "
                 "replayed and mutated captured live traffic, well-formed queries/responses about the instance's names (TC, QU, known answers, probes), "
@@ -713,6 +726,9 @@ def run(ctx):
         res.count("corpus")
         run_case(res, case, ctx, acc, seen, do_min=False)
     for idx in range(n):
+        if time.time() - t0 > cap:
+            res.notes.append("stopped after %d of %d cases: wall-clock guard of %.0f s" % (idx, n, cap))
+            break
         run_case(res, gen_case(seed, idx), ctx, acc, seen)
         if len(acc) >= 40:
             flush_model(res, ctx, acc, seen)
@@ -740,8 +756,10 @@ def replay(body):
            "canary_query_answered": obs.get("canary_q"), "canary_announcement_added_in": obs.get("canary_a"), "lookup": obs.get("lookup"),
            "impl_blocks": impl_tags(obs)[:40]}
     try:
-        out["model_blocks"] = C.run_driver([model_line(obs)])[0].split(" ")[:40]
-        out["model_disagrees"] = out["model_blocks"] != out["impl_blocks"]
+        mb = C.run_driver([model_line(obs)])[0].split(" ")
+        it, mt = cut_after_raise(impl_tags(obs), mb)
+        out["model_blocks"] = mb[:40]
+        out["model_disagrees"] = it != mt
     except C.DriverUnavailable:
         pass
     return out
